@@ -3,10 +3,15 @@
    of ASDUs carried by the frames written in the observations o; `hp c` the parked responses.
    The byte-offset ring of HighPriorityASDUQueue (Cs104/MsgQueue.v, the hp_ functions, a literal transcription that is
    run operation by operation against the C functions on every run) is proved to refine a FIFO for every ring size
-   and every history (Cs104/HpRingProofs.v): last four theorems. *)
+   and every history (Cs104/HpRingProofs.v).
+   COMPOSITION (Cs104/SchedRing.v, C13_sched_ring_ theorems): the three scheduler functions transcribed with the literal ring in place
+   of the list (send_asdu_internal_r, send_hp_r, send_waiting_r; run against the real sendASDUInternal / sendWaitingASDUs on a
+   real connection on every run) are the list versions for every ring state that represents the list (HPInv), except that a
+   response the ring refuses makes the send call report failure and changes nothing: the order theorems hold with the real ring. *)
 From Coq Require Import ZArith List Bool.
-From L60870 Require Import Cs104.Server Cs104.SchedProofs Cs104.MsgQueue Cs104.HpRingProofs.
-Import ListNotations.
+From RecordUpdate Require Import RecordSet.
+From L60870 Require Import Cs104.Server Cs104.SchedProofs Cs104.MsgQueue Cs104.HpRingProofs Cs104.SchedRing.
+Import ListNotations RecordSetNotations.
 Local Open Scope Z_scope.
 
 (* a response is written at once only when nothing is parked; otherwise it is parked at the tail:
@@ -68,3 +73,35 @@ Example C13_ring_example :
                    = MsgQueue.Ok (q, outs) /\
                  outs = [Some (repeat 1 20); Some (repeat 2 230); Some (repeat 4 10); None].
 Proof. eexists. eexists. vm_compute. split; reflexivity. Qed.
+
+(* ---- scheduler x ring (Cs104/SchedRing.v).  HPInv q L: the ring state q represents the parked list L (kept by every ring operation). *)
+(* sendASDUInternal with the ring: never a fault; success = the list version's step (same frames, same connection, ring represents the
+   new list); failure = nothing changed, and only when not started, oversized, or something is parked already (ring full) *)
+Theorem C13_sched_ring_internal : forall g now c q a L, HPInv q L ->
+  exists c' q' r o, send_asdu_internal_r g now c q a = MsgQueue.Ok (c', q', r, o) /\
+    let '(cm, rm, om) := send_asdu_internal g now (c <| hp := L |>) a in
+    (r = true -> c' <| hp := hp cm |> = cm /\ o = om /\ HPInv q' (hp cm)) /\
+    (r = false -> c' = c /\ o = [] /\ HPInv q' L /\ (st c <> STARTED \/ 250 < lenz a \/ L <> [])).
+Proof. exact internal_ring. Qed.
+
+(* the order statement on the ring: (written now) ++ (parked after) = (parked before) ++ [response], or the call reported failure *)
+Theorem C13_sched_ring_response_order : forall g now c q a L, HPInv q L -> st c = STARTED -> wmode c = 0 ->
+  exists c' q' r o, send_asdu_internal_r g now c q a = MsgQueue.Ok (c', q', r, o) /\
+    ((r = true /\ exists L', HPInv q' L' /\ itx o ++ L' = L ++ [a]) \/
+     (r = false /\ c' = c /\ o = [] /\ HPInv q' L)).
+Proof. exact response_order_ring. Qed.
+
+Theorem C13_sched_ring_drain : forall fuel g now c q L, HPInv q L -> wmode c = 0 ->
+  exists c' q' go o L', send_hp_r fuel g now c q = MsgQueue.Ok (c', q', go, o) /\ HPInv q' L' /\ itx o ++ L' = L /\ (go = true -> L' = []).
+Proof. exact drain_order_ring. Qed.
+
+Theorem C13_sched_ring_responses_before_events : forall g now s c q L, HPInv q L -> wmode c = 0 ->
+  exists s' c' q' o L' sent ev, send_waiting_r g now s c q = MsgQueue.Ok (s', c', q', o) /\ HPInv q' L' /\
+    itx o = sent ++ ev /\ sent ++ L' = L /\
+    (ev = [] \/ (L' = [] /\ exists e m', Server.mq_next_waiting (mq s) = Some (e, m') /\ ev = [q_asdu e] /\ mq s' = m')).
+Proof. exact responses_before_events_ring. Qed.
+
+(* non-vacuity: ring for two worst-case entries, window full: two responses parked, the third refused; after the acknowledgement the
+   drain writes the two parked ones in order *)
+Example C13_sched_ring_example : exr_run = Some ([true; true; false], [exr_a 1; exr_a 2], true) /\ HPInv (hp_new 2) [] /\ wmode exr_c = 0.
+Proof. exact sched_ring_example. Qed.
